@@ -198,6 +198,35 @@ TARGETS = [
                            (r"let mut count = count\.lock\(\)\.unwrap\(\)", "lock"),
                            (r"\*count -= 1", "decr"),
                            (r"cvar\.notify_one\(\)", "notify")])),
+    # ---- the length-publication protocol of the background decoder (bases/io/compression.rs)
+    dict(name="svWaitPredicate", group="Sync", file="src/bases/io/compression.rs", fn="wait_for",
+         expr_rx=r"\|s\| (.*?)\)\s*\.unwrap\(\)",
+         cfg=dict(params=[("decoded", N), ("failed", "Bool"), ("end_", N)], ret="Bool", paths={"end": "end_"},
+                  exprs={"s.decoded": "decoded", "s.failed": "failed"})),
+    dict(name="svWaitResult", group="Sync", file="src/bases/io/compression.rs", fn="wait_for",
+         expr_rx=r"(if state\.decoded < end \{\s*Err.*?\} else \{.*?\})\s*$",
+         cfg=dict(params=[("decoded", N), ("end_", N)], ret="Bool", paths={"end": "end_"},
+                  exprs={"state.decoded": "decoded"}, call_raw={"Err": "false", "Ok": "true"})),
+    dict(name="svDecoderLoopShape", group="Sync", file="src/bases/io/compression.rs", fn="decode_to_end", cfg={},
+         shape=dict(type="SVStmt", select=r"while uncompressed < total_size \{", touch=r"decoder|buffer|state|cvar|lock|uncompressed",
+                    rules=[(r"#\[cfg\(jubako_verif\)\] crate::verif_hooks::point\(.*\)", None),
+                           (r"let size = std::cmp::min\(total_size - uncompressed, chunk_size\)", None),
+                           (r"let read = decoder ?\.by_ref\(\) ?\.take\(size as u64\) ?\.read_to_end\(&mut buffer\.data\) ?\.and_then\(.*\)", "readChunk"),
+                           (r"let \(lock, cvar\) = &\*buffer\.decoded", None),
+                           (r"let mut state = lock\.lock\(\)\.unwrap\(\)", "lock"),
+                           (r"match read \{.*\}", "branchOnRead")])),
+    dict(name="svDecoderOkShape", group="Sync", file="src/bases/io/compression.rs", fn="decode_to_end", cfg={},
+         shape=dict(type="SVStmt", select=r"Ok\(read\) => \{", touch=r"decoder|buffer|state|cvar|lock|uncompressed",
+                    rules=[(r"#\[cfg\(jubako_verif\)\] crate::verif_hooks::point\(.*\)", None),
+                           (r"uncompressed \+= read", "advance"),
+                           (r"state\.decoded = uncompressed", "publish"),
+                           (r"cvar\.notify_all\(\)", "notifyAll")])),
+    dict(name="svDecoderErrShape", group="Sync", file="src/bases/io/compression.rs", fn="decode_to_end", cfg={},
+         shape=dict(type="SVStmt", select=r"Err\(e\) => \{", touch=r"decoder|buffer|state|cvar|lock|uncompressed",
+                    rules=[(r"#\[cfg\(jubako_verif\)\] crate::verif_hooks::point\(.*\)", None),
+                           (r"state\.failed = true", "setFailed"),
+                           (r"cvar\.notify_all\(\)", "notifyAll"),
+                           (r"return Err\(e\)", "stop")])),
 ]
 
 
@@ -358,8 +387,8 @@ def apply_enums(t):
     return "\n".join(decls)
 
 
-GROUP_IMPORTS = {"Pipe": ["JubakoModel.Model.Pipeline"], "Proto": ["JubakoModel.Model.FileCursor"], "Search": ["JubakoModel.Generated.FuncsBytes"], "Content": ["JubakoModel.Generated.FuncsBytes"], "Dir": ["JubakoModel.Generated.FuncsBytes", "JubakoModel.Model.Bytes"]}
-GROUP_ORDER = ["Bytes", "Content", "Dir", "Order", "Search", "View", "Check", "Proto", "Pipe"]
+GROUP_IMPORTS = {"Sync": ["JubakoModel.Model.SyncVec"], "Pipe": ["JubakoModel.Model.Pipeline"], "Proto": ["JubakoModel.Model.FileCursor"], "Search": ["JubakoModel.Generated.FuncsBytes"], "Content": ["JubakoModel.Generated.FuncsBytes"], "Dir": ["JubakoModel.Generated.FuncsBytes", "JubakoModel.Model.Bytes"]}
+GROUP_ORDER = ["Bytes", "Content", "Dir", "Order", "Search", "View", "Check", "Proto", "Pipe", "Sync"]
 
 
 def main():
@@ -389,6 +418,12 @@ def main():
             if t.get("proto"):
                 acts = proto_actions(body, t.get("select"))
                 text = f"def {name} : List FAct := [" + ", ".join("." + a for a in acts) + "]\n"
+            elif t.get("expr_rx"):
+                import re as _re
+                m = _re.search(t["expr_rx"], body, _re.S)
+                if not m:
+                    raise rs2lean.Untranslatable("expression not found: " + t["expr_rx"])
+                text = rs2lean.translate_expr(name, m.group(1), t["cfg"])
             elif t.get("shape"):
                 sh = t["shape"]
                 acts = shape_actions(body, sh["rules"], sh["touch"], sh.get("select"), sh.get("else_block", False), sh.get("first"))
